@@ -356,7 +356,10 @@ class DisciplineAdapter(MDOFunction):
         variable_types = x_vect.dtype.metadata
         if variable_types is not None:
             # Restore the proper data types as declared in the design space.
+            # The metadata hold the types of all the non-float design variables,
+            # including those that are not inputs of this discipline.
             for name, type_ in variable_types.items():
-                input_data[name] = input_data[name].astype(type_, copy=False)
+                if name in input_data:
+                    input_data[name] = input_data[name].astype(type_, copy=False)
 
         return input_data
